@@ -1,8 +1,8 @@
 (* Extraction of the executable model for the correspondence driver: ExtrOcamlBasic only; nat, N, Z, positive stay
    Coq datatypes; no Extract Constant / Extract Inductive beyond that file's (bool, option, unit, list, prod, sumbool). *)
 From Coq Require Import ExtrOcamlBasic List ZArith NArith.
-From PP Require Import Model.Str Model.Results Model.Prog Model.Core Model.Entry Model.Peg Model.LR Model.LRT Proofs.EqDec.
+From PP Require Import Model.Str Model.Results Model.Prog Model.Core Model.Entry Model.Peg Model.LR Model.LRT Model.Transform Proofs.EqDec.
 Extraction Language OCaml.
 Set Extraction Output Directory ".".
 Extraction "model.ml" Prog.parse Prog.parsec Core.step Entry.parse_string Entry.scan_string Entry.drun Entry.drunc
-  EqDec.args_eqb Str.expandtabs Results.pr_as_list Peg.peg Peg.in_class Peg.env_in_class Peg.in_ref_class Peg.env_in_ref_class LR.parse_lr LR.drunm LR.memo_empty LRT.parse_lr_t LRT.drunm_t.
+  EqDec.args_eqb Str.expandtabs Results.pr_as_list Peg.peg Peg.in_class Peg.env_in_class Peg.in_ref_class Peg.env_in_ref_class LR.parse_lr LR.drunm LR.memo_empty LRT.parse_lr_t LRT.drunm_t Transform.transform.
